@@ -1205,6 +1205,9 @@ class SingleInstancePredictor(Predictor):
                 ex["pred_peak_values"],
                 ex["orig_size"],
             ):
+                # A frame without any detected node yields no instance.
+                if np.isnan(pred_instances).all():
+                    continue
 
                 inst = sio.PredictedInstance.from_numpy(
                     points=pred_instances,
